@@ -34,6 +34,7 @@ def alphabet_for(np, small=False):
             for rs in combos[::3]: A.append(dict(op='IW', recs=list(rs)))
             for rs in [c for c in combos if all(x is not None for x in c)][:4]: A.append(dict(op='CD', recs=list(rs)))
             for rs in [c for c in combos if any(x is not None for x in c)][1::4]: A.append(dict(op='CE', recs=list(rs)))     # out-of-range value: NC_ERANGE, the record still exists
+            for k in range(np): A.append(dict(op='IS', k=k, rec=3 - k % 2))      # two pending writes of one process, completed one by one, later-posted first
             for r in (0, 1, 3): A.append(dict(op='FV', rec=r))
             A.append(dict(op='BI'))
         else:
@@ -81,6 +82,14 @@ def emit_op(c, o, m, np):
                 val = 1000 * (m.tag + 1) + 10 * rec + r
                 c.op(r, 'put', f=0, form='vara', v=0, s=[rec, r], c=[1, 1], mem='int', vals=[val], nb='i', req=r)
                 c.op(r, 'wait', f=0, all=1, ids=['q%d' % r])
+    elif k == 'IS':
+        kk = o['k']; val = 1000 * (m.tag + 1) + kk
+        c.op(kk, 'put', f=0, form='vara', v=0, s=[0, kk], c=[1, 1], mem='int', vals=[val], nb='i', req=20 + kk)
+        c.op(kk, 'put', f=0, form='vara', v=0, s=[o['rec'], kk], c=[1, 1], mem='int', vals=[val + 10 * o['rec']], nb='i', req=40 + kk)
+        for slot in (40 + kk, 20 + kk):
+            for r in range(np):
+                if r == kk: c.op(r, 'wait', f=0, all=1, ids=['q%d' % slot])
+                else: c.op(r, 'wait', f=0, all=1, num=0)
     elif k == 'FV': c.op('*', 'fill_var_rec', f=0, v=0, rec=o['rec'])
     elif k == 'BI': c.op('*', 'begin_indep', f=0)
     elif k == 'EI': c.op('*', 'end_indep', f=0)
@@ -110,6 +119,10 @@ def apply(m, o):
                 wr(o['recs'][r], r); m.local[r] = max(m.local[r], o['recs'][r] + 1)
                 if k == 'CE': m.data[(o['recs'][r], r)] = FILL_INT
         m.sync()
+    elif k == 'IS':
+        kk = o['k']; val = 1000 * (m.tag + 1) + kk
+        m.data[(0, kk)] = val; m.data[(o['rec'], kk)] = val + 10 * o['rec']
+        m.local[kk] = max(m.local[kk], o['rec'] + 1); m.sync()
     elif k == 'IE':
         m.data[(o['rec'], o['k'])] = FILL_INT; m.local[o['k']] = max(m.local[o['k']], o['rec'] + 1)
     elif k == 'FV':
